@@ -42,6 +42,25 @@ WHAT = {
     'C17-agent2': 'FrameParser._utf8_validator becomes a class attribute (shared by all connections)',
     'C18-agent2': 'SelectorBase.wait asks pending() only of ssl.SSLSocket instances',
     'C19-agent2': 'Parser.feed drops _check_length(sep_index) (oversized terminated proxy answer accepted)',
+    'C01-agent3': 'parse: `elif payload_length == 127` -> `if` (a 127-byte payload in 16-bit form is re-read as a 64-bit length)',
+    'C02-agent3': '_ReadUtf8.validate returns early for chunks that decode as ASCII (verdict depends on where the reads were cut)',
+    'C03-agent3': 'mask_payload masks large payloads in blocks of 65535 bytes (key lane restarts at every block)',
+    'C04-agent3': 'stream.feed rejects a new data frame inside a fragmented message only if it has FIN=1',
+    'C05-agent3': 'parse sets _is_text only for a non-empty first text fragment (fail-fast lost after an empty first fragment)',
+    'C06-agent3': 'Deflate.from_options swaps server_max_window_bits and client_max_window_bits',
+    'C07-agent3': 'run(): `except WebSocketError` around _send_request narrowed to TransportFail (close() at Connecting escapes)',
+    'C08-agent3': '_send_close refuses len(payload) >= 125 (the longest valid reason, 123 bytes)',
+    'C09-agent3': 'close() records sent_close_time only if the Close was written (failed write + silence: never times out)',
+    'C10-agent3': 'on_response compares Accept and digest after rstrip("=") (padding dropped or added accepted)',
+    'C11-agent3': 'send() hands the frame to write() in 64 KiB slices (lock released mid-frame)',
+    'C12-agent3': '_on_close stores closing=False before closed=True again (window in which the websocket looks open)',
+    'C13-agent3': 'run(): `except GeneratorExit` at the Connected yield became `except Exception` (GeneratorExit is a BaseException)',
+    'C14-agent3': '_send_pong catches only WebSocketUnavailable (a failed pong write kills the loop)',
+    'C15-agent3': '_check_ping_timeout skipped while the websocket is closing',
+    'C16-agent3': 'persist: random_wait = max(max_wait - min_wait, 1) (delay exceeds max_wait for ranges below 1 s)',
+    'C17-agent3': 'Deflate.from_options caches Deflate objects in a class-level dict (zlib contexts shared across connections)',
+    'C18-agent3': 'parse awaits read_text(0) for an empty text payload (stays pending until more bytes arrive)',
+    'C19-agent3': 'ProxyParser.parse accepts any 2xx status',
 }
 
 
